@@ -30,7 +30,7 @@ CLAIMED = {
             "Exhaustive operand-state grid for binary ops per configuration + random histories, for 7 (quick) / all 16 (thorough) trait combinations.",
             "allocator equality is id equality; always-equal allocators make the id check vacuous by definition", "3 C07"),
     "C08": ("exploration", "differential: the compilers' constant evaluators (UB-rejecting interpreters) vs run-time execution of the same constexpr interpreter over generated programs",
-            "480 (quick) / 5120 (thorough) random 30-step programs over 10 (T,N,M) configurations; GCC 12 in C++20/23 and Clang 14 in C++20.",
+            "480 (quick) / 5120 (thorough) random 30-step programs (33 op kinds incl. aliasing arguments) over 10 (T,N,M) configurations plus converting scenarios (bool/int/unsigned/short targets fed from other integral types); GCC 12 in C++20/23 and Clang 14 in C++20.",
             "the constant evaluators of GCC 12 / Clang 14 are the UB oracle; clang++ -std=c++2b excluded (toolchain defect)", "3 C08"),
     "C09": ("exploration", "pre/post data()/serial snapshots + per-call element event log + allocate counter; steal_permitted computed from the pre-state",
             "Every move ctor / move assign / swap explored (exhaustive operand grid incl. capacity <,==,> destination N, plus random histories) was checked for O(1) transfer when permitted.",
@@ -45,7 +45,7 @@ CLAIMED = {
             "Exhaustive for the uint8_t configurations (every size, count, range length 0..300); boundary sampling for 16/32/64-bit; assert and NDEBUG builds.",
             "memory-free counting iterators stand in for huge ranges; 64-bit limits reached through a max_size() cap", "3 C12"),
     "C13": ("exploration", "twin replay (int / trivially copyable / non-trivial struct traces must be identical), conversion matrix against static_cast<To>, compile-acceptance probes of minimal-requirement archetypes (trivial variant vs non-trivial twin), ASan + ledger red zones",
-            "Twin histories, ~90 (From,To) cells x ops x iterator kinds (thorough), 27 archetype/operation probes x standards.",
+            "Twin histories, ~90 (From,To) cells x ops x iterator kinds (thorough; 5 of 8 parts in quick), value-initialisation cells (member pointers etc.), 27 archetype/operation probes x standards.",
             "static_cast<To>(source) is the conversion reference; the non-trivial twin is the acceptance reference", "3 C13"),
     "C14": ("exploration", "per-reallocation growth predicate in histories/sweep + long one-at-a-time runs counting allocations and relocations",
             "1M (quick) / 50M (thorough) appends per configuration, mixed growth workloads, and every reallocating op of the hist workloads.",
@@ -54,13 +54,13 @@ CLAIMED = {
             "Every range op x iterator kind x position x count from every canonical state (sweep) + range-heavy random histories.",
             "iterators are the harness's; a real stream iterator behaves like StreamIt", "3 C15"),
     "C16": ("exploration", "exhaustive differential against std::vector over all pairs of sequences over {0,1,2} up to length 4, several element types and N pairs, C++17 six-operator and C++20 <=> builds",
-            "Exhaustive over the stated finite space; thorough adds C++11/14/23 and clang.",
+            "Exhaustive over the stated finite space, incl. an element type with unordered (NaN) values and member/non-member swap state twins; thorough adds C++11/14/23 and clang.",
             "std::vector comparison semantics are the reference", "3 C16"),
     "C17": ("exploration", "differential over builds: digests of a portable C++11-subset corpus compared across g++ {11,14,17,20,23} x clang++ {11,14,17,20} x GCH_DISABLE_CONCEPTS, plus per-feature compile-acceptance probes",
-            "960 (quick) / 24000 (thorough) histories per build over 8 families incl. length_error and converting sources; every build must accept what any build accepts.",
+            "1200 (quick) / 30000 (thorough) histories per build over 10 families incl. length_error, converting sources, a throwing ADL swap and a move-only type with std::allocator; six per-feature acceptance probes: every build must accept what any build accepts.",
             "libstdc++ only; clang++ -std=c++2b excluded (toolchain defect); MSVC/libc++ unavailable", "3 C17"),
     "C18": ("fault_enumeration", "observed noexcept/type-trait table vs the README formula (compiled grid) + fault enumeration: noexcept ops must have zero throwing ticks, non-noexcept ops must deliver every injected fault (terminate = witness)",
-            "Full grid of the statement for the table; truthfulness over all single throw points of the enumerated cases incl. iterator and allocator-default-constructor faults.",
+            "Full grid of the statement for the table (built as C++11/14/17/20, thorough also 23 and clang); truthfulness over all single throw points of the enumerated cases incl. iterator and allocator-default-constructor faults, element flavours incl. throwing swap and throwing move assignment.",
             "README synopsis is the documented contract; formula re-implemented independently in the harness", "3 C18"),
     "C19": ("exploration", "generated probe programs print D, sizeof for N=0/D/D+1, alignof, inline_capacity() for the whole grid; oracle 'largest count that fits in 64 bytes'; run-time alignment check under UBSan",
             "Thorough tier covers all 3976 configurations of the statement's grid (exhaustive); quick a seeded stratified subset of ~700. 258 configurations are recorded known findings.",
